@@ -661,11 +661,14 @@ def gen_cases(cls, rng, tier, algos, whats, level=1, n_small=3, m_small=3, nrand
                 op = "try %d %d %d" % (u, v, 900 + i)
             else:
                 op = "retarget %d" % g.keys[rng.randrange(g.n)]
-            st = g.steps() + [srch(algo, what, root, tr, tg, None) + " then " + op]
+            # with or without a closure: a for_each / filter configured on the object must still be in force in the second run
+            r2 = rng.random()
+            m = None if r2 < 0.4 else ("each",) if r2 < 0.6 else ("filt", rng.randint(0, 5), rng.randint(2, 5))
+            st = g.steps() + [srch(algo, what, root, tr, tg, m) + " then " + op]
             cases.append(Case("%sT%s%d" % (prefix, cls, i), cls, st, dict(kind="search-object-reused-after-change")))
     # large structured graphs: long chains, deep trees, wide fans, grids, rings with chords, dense random graphs
     if nrandom:
-        for i in range(max(8, nrandom // 5)):
+        for i in range(max(9, nrandom // 5)):
             g = large_graph(cls, rng, i)
             st = g.steps()
             far = [g.n - 1, g.n // 2, 0, rng.randrange(g.n)]
@@ -689,9 +692,17 @@ def gen_cases(cls, rng, tier, algos, whats, level=1, n_small=3, m_small=3, nrand
 
 
 def large_graph(cls, rng, i):
-    shape = ["chain", "tree", "fan", "grid", "ring", "dense", "deepring", "deepchain"][i % 8]
+    shape = ["chain", "tree", "fan", "grid", "ring", "dense", "deepring", "deepchain", "deeptail"][i % 9]
     edges = []
-    if shape == "deepring":
+    if shape == "deeptail":
+        # a long chain with branching only at the far end: siblings, cross and back edges two thousand levels down
+        n = rng.randint(2200, 3000)
+        m = n - 12
+        edges = [(u, u + 1) for u in range(m)]
+        tail = list(range(m, n))
+        edges += [(m, v) for v in tail[1:4]] + [(rng.choice(tail), rng.choice(tail)) for _ in range(20)]
+        edges += [(rng.choice(tail), rng.randrange(m)) for _ in range(3)]
+    elif shape == "deepring":
         # recursion / queue depth in the thousands
         n = rng.randint(2200, 3200)
         edges = [(u, (u + 1) % n) for u in range(n)]
